@@ -13,7 +13,7 @@ CONSTANTS
     MaxIdle,      \* budget of non-ticking server frames
     MaxCliFrames, \* budget of client frames before settling
     OpComps,      \* components the operations range over
-    OpKinds,      \* subset of {"spawn","despawn","mark","unmark","insert","remove","mutate","setvis","timeout"}
+    OpKinds,      \* subset of {"spawn","despawn","mark","unmark","insert","remove","mutate","setvis","timeout","relate","unrelate",...}
     SettleRounds, \* perfect-link rounds of the settle phase
     Pre,          \* names of pre-spawned client entities
     MaxRecon,     \* budget of disconnects / server stops
@@ -37,6 +37,8 @@ ImplNoMap == [ImplDesigned EXCEPT !.seedIgnoreMapping = TRUE]
 ImplF9  == [ImplDesigned EXCEPT !.removalOverwrite = TRUE]
 ImplF11 == [ImplDesigned EXCEPT !.emptyMutateWithGraphs = TRUE]
 ImplF14 == [ImplDesigned EXCEPT !.whiteReAddForgetsLost = TRUE]
+ImplF8  == [ImplDesigned EXCEPT !.refBeforeSpawnUnmarked = TRUE]
+ImplF17 == [ImplDesigned EXCEPT !.clientLinkedDespawn = TRUE]
 
 vars == <<st, g, b, hist>>
 
@@ -88,6 +90,12 @@ Remove(e, k) ==
 Mutate(e, k) ==
     /\ Op("mutate") /\ MutateEnabled(st, e, k)
     /\ st' = MutateF(st, e, k) /\ UNCHANGED g /\ Log("Mutate", [e |-> e, k |-> k])
+Relate(e, p) ==
+    /\ Op("relate") /\ RelateEnabled(st, e, p)
+    /\ st' = RelateF(st, e, p) /\ UNCHANGED g /\ Log("Relate", [e |-> e, p |-> p])
+Unrelate(e) ==
+    /\ Op("unrelate") /\ UnrelateEnabled(st, e)
+    /\ st' = UnrelateF(st, e) /\ UNCHANGED g /\ Log("Unrelate", [e |-> e])
 SetVis(c, e, v) ==
     /\ Op("setvis") /\ SetVisEnabled(st, c) /\ st.srv.world[e].used
     /\ st' = SetVisF(st, c, e, v) /\ g' = GhostSetVis(g, c, e, v)
@@ -189,6 +197,8 @@ Next ==
     \/ \E e \in Ent, ks \in SUBSET OpComps : Spawn(e, ks)
     \/ \E e \in Ent : Despawn(e) \/ Mark(e) \/ Unmark(e)
     \/ \E e \in Ent, k \in OpComps : Insert(e, k) \/ Remove(e, k) \/ Mutate(e, k)
+    \/ \E e \in Ent, p \in Ent : Relate(e, p)
+    \/ \E e \in Ent : Unrelate(e)
     \/ \E c \in Client, e \in Ent, v \in BOOLEAN : SetVis(c, e, v)
     \/ \E c \in Client, p \in Pre : Prespawn(c, p) \/ KillPre(c, p)
     \/ \E c \in Client, e \in Ent, p \in Pre : MapPre(c, e, p)
